@@ -369,16 +369,9 @@ func StripPathElemPrefixPath(p *sdcpb.Path) {
 				delete(pe.Key, k)
 				k = k[i+1:]
 			}
-			// delete prefix from key value
-			if strings.Contains(v, ":") {
-				kelems := strings.Split(v, "/")
-				for idx, kelem := range kelems {
-					if i := strings.Index(kelem, ":"); i > 0 {
-						kelems[idx] = kelem[i+1:]
-					}
-				}
-				v = strings.Join(kelems, "/")
-			}
+			// the key value is left alone: whether a ':' in it separates a module prefix from an
+			// identity (oc-types:BGP) or belongs to the value (2001:db8::1, aa:bb:cc:dd:ee:ff, a time)
+			// is decided by the type of the key leaf, see Converter.stripIdentityrefKeyPrefixes
 			pe.Key[k] = v
 		}
 	}
